@@ -73,6 +73,10 @@ class SetOrder:
         if isinstance(e, (ast.List, ast.Tuple, ast.ListComp, ast.GeneratorExp, ast.Constant, ast.JoinedStr, ast.Dict)):
             if isinstance(e, ast.Dict) and e.values and all(self.kind_of(fi, v, depth + 1) == "set" for v in e.values):
                 return "dictofsets"
+            if isinstance(e, (ast.List, ast.Tuple)) and e.elts and all(self.kind_of(fi, v, depth + 1) == "set" for v in e.elts):
+                return "listofsets"
+            if isinstance(e, (ast.ListComp, ast.GeneratorExp)) and self.kind_of(fi, e.elt, depth + 1) == "set":
+                return "listofsets"
             return "other"
         if isinstance(e, ast.DictComp):
             return "dictofsets" if self.kind_of(fi, e.value, depth + 1) == "set" else "other"
@@ -129,6 +133,8 @@ class SetOrder:
             return self.kind_of(fi, e.value, depth + 1)
         if isinstance(e, ast.Subscript):
             b = self.kind_of(fi, e.value, depth + 1)
+            if b == "listofsets":
+                return "listofsets" if isinstance(e.slice, ast.Slice) else "set"
             return "set" if b == "dictofsets" else ("unknown" if b == "unknown" else "other")
         if isinstance(e, ast.Name):
             return self.name_kind(fi, e, depth)
@@ -198,6 +204,8 @@ class SetOrder:
             return "set"
         if "dictofsets" in ks:
             return "dictofsets"
+        if "listofsets" in ks:
+            return "listofsets"
         return ks.pop() if len(ks) == 1 else "unknown"
 
     def def_kind(self, fi: FuncInfo, d, depth: int) -> str:
@@ -221,6 +229,12 @@ class SetOrder:
                 if k in ("other", "unknown") and isinstance(v, (ast.Dict, ast.Call)):
                     if self._local_dict_of_sets(fi, d.name):
                         return "dictofsets"
+                # a list local that later receives sets through append
+                if k in ("other", "unknown") and isinstance(v, ast.List) and not v.elts and depth < 6:
+                    for c in A.body_nodes(fi.node):
+                        if isinstance(c, ast.Call) and isinstance(c.func, ast.Attribute) and c.func.attr == "append" and isinstance(c.func.value, ast.Name) \
+                                and c.func.value.id == d.name and c.args and self.kind_of(fi, c.args[0], depth + 2) == "set":
+                            return "listofsets"
                 return k
             return "unknown"
         if d.kind == "augassign":
@@ -232,6 +246,8 @@ class SetOrder:
             return "unknown"
         if d.kind in ("for", "comp"):
             it = d.value
+            if isinstance(d.target, ast.Name) and depth < 8 and self.kind_of(fi, it, depth + 1) == "listofsets":
+                return "set"
             # elements of dict-of-sets .values() / .items()
             if isinstance(it, ast.Call) and isinstance(it.func, ast.Attribute) and it.func.attr in ("values", "items"):
                 if self.kind_of(fi, it.func.value, depth + 1) == "dictofsets":
@@ -240,6 +256,25 @@ class SetOrder:
                     if it.func.attr == "items" and isinstance(d.target, ast.Tuple) and len(d.target.elts) == 2 \
                             and isinstance(d.target.elts[1], ast.Name) and d.target.elts[1].id == d.name:
                         return "set"
+            # elements yielded / returned by a package function:  for a, b in gen(...)
+            if isinstance(it, ast.Call) and depth < 4:
+                ts, how = self.prog.resolve_callee(fi, it.func)
+                pos = None
+                if isinstance(d.target, ast.Tuple):
+                    names = [e.id if isinstance(e, ast.Name) else None for e in d.target.elts]
+                    if d.name in names:
+                        pos = names.index(d.name)
+                for t in ts:
+                    if not isinstance(t, FuncInfo):
+                        continue
+                    for y in [n for n in A.body_nodes(t.node) if isinstance(n, ast.Yield) and n.value is not None]:
+                        v = y.value
+                        if pos is not None and isinstance(v, ast.Tuple) and pos < len(v.elts):
+                            v = v.elts[pos]
+                        elif pos is not None:
+                            continue
+                        if self.kind_of(t, v, depth + 1) == "set":
+                            return "set"
             return "unknown"
         return "unknown"
 
